@@ -30,7 +30,7 @@ func selftest(n int) int {
 	if err != nil {
 		return fatal2("build failed:\n%v", err)
 	}
-	env := &check.Env{Bins: &world.Bins{Bin: bres.Bin, RaceBin: bres.RaceBin, Sources: bres.Sources}, Base: scratch, Known: loadKnown().classifyAny}
+	env := &check.Env{Bins: &world.Bins{Bin: bres.Bin, RaceBin: bres.RaceBin, TrimBin: bres.TrimBin, Sources: bres.Sources}, Base: scratch, Known: loadKnown().classifyAny}
 	presets := []*gen.Params{gen.Preset("C06", true, nil), gen.Preset("C20", true, nil), gen.Preset("C10", false, nil), gen.Preset("C19", true, nil), gen.Preset("C12", true, nil), gen.Preset("C03", false, nil)}
 	type res struct {
 		i     int
